@@ -138,3 +138,9 @@ def upload_all(stream):
             break
         out.extend(d)
     return out
+
+
+def upload_all_and_close(stream):
+    data = upload_all(stream)
+    stream.close()
+    return data
